@@ -83,7 +83,7 @@ FAULTS = [
     'drop problem_class', 'drop sweeper_class', 'drop sweeper_params', 'drop level_params', 'drop num_nodes', 'no space transfer', 'bad predict_type ML', 'bad residual_type',
     'bad initial_guess', 'bad quad_type', 'bad node_type', 'bad QI', 'nsweeps coarse>1', 'PFASST GAUSS', 'PFASST RADAU-LEFT', 'dtype_u key', 'dtype_f key', 'predict key',
     'level.status.foo', 'level.params.foo', 'step.status.foo', 'step.params.foo', 'sweep.params.foo', 'controller.params.foo', 'level.foo', 'step.foo', 'prob.nvars=', 'prob.nu=',
-    'odd iorder', 'bad QE',
+    'odd iorder', 'bad QE', 'attribute of a sibling class',
 ]
 
 
@@ -338,6 +338,21 @@ def run_fault(case, r):
         post = lambda c: setattr(c.MS[0].levels[0].sweep.params, 'foo', 1)  # noqa
     elif f == 'controller.params.foo':
         post = lambda c: setattr(c.params, 'foo', 1)  # noqa
+    elif f == 'attribute of a sibling class':
+        # names that ARE declared - for another frozen class of the same kind (step status vs level status, step vs level vs
+        # sweeper vs controller parameters): declared-ness must not leak between classes
+        table = [('level.status', lambda c: c.MS[0].levels[0].status, ['restart', 'restarts_in_a_row', 'iter', 'done', 'slot', 'force_done', 'stage', 'prev_done', 'time_size']),
+                 ('step.status', lambda c: c.MS[0].status, ['residual', 'unlocked', 'updated', 'sweep', 'dt_new', 'time']),
+                 ('level.params', lambda c: c.MS[0].levels[0].params, ['maxiter', 'num_nodes', 'QI']),
+                 ('step.params', lambda c: c.MS[0].params, ['dt', 'restol', 'nsweeps', 'residual_type']),
+                 ('sweep.params', lambda c: c.MS[0].levels[0].sweep.params, ['dt', 'maxiter', 'restol']),
+                 ('controller.params', lambda c: c.params, ['dt', 'maxiter', 'QI', 'num_nodes'])]
+        # names that convergence controllers register at run time (BasicRestarting is always loaded) are the likeliest to leak
+        table += [('level.status', lambda c: c.MS[0].levels[0].status, ['restart', 'restarts_in_a_row'])] * 6
+        where, getter, names_ = table[int(rng.integers(0, len(table)))]
+        nm_ = names_[int(rng.integers(0, len(names_)))]
+        f = f'{f}: {where}.{nm_}'
+        post = lambda c, getter=getter, nm_=nm_: setattr(getter(c), nm_, 1)  # noqa
     elif f == 'level.foo':
         post = lambda c: setattr(c.MS[0].levels[0], 'foo', 1)  # noqa
     elif f == 'step.foo':
@@ -364,7 +379,7 @@ def run_fault(case, r):
             rejected = type(e).__name__
     r.check(rejected is not None, 'invalid-setup-rejected', f'fault {f!r} on a {nlev}-level, {procs}-step description was silently accepted (construction and first run completed): controller_params {cp}, description {d}')
     r.nontrivial = True
-    r.observe('fault', f'{f}:{rejected}')
+    r.observe('fault', f'{f.split(":")[0]}:{rejected}')
     r.sample = dict(fault=f, rejected_with=rejected, nlev=nlev, procs=procs)
 
 
